@@ -220,7 +220,8 @@ def _write_replay(prop_id, fp, case, obs, tier, seed):
     path = os.path.join(REPLAY_DIR, f"{prop_id}-{h}.json")
     with open(path, "w") as f:
         json.dump(
-            {"property": prop_id, "fingerprint": fp, "case": case, "observation": obs, "tier": tier, "seed": seed},
+            {"property": prop_id, "fingerprint": fp, "case": case, "observation": obs, "tier": tier, "seed": seed,
+             "hashseed": int(os.environ.get("PYTHONHASHSEED", "0") or 0)},
             f,
             indent=1,
             sort_keys=True,
